@@ -2,7 +2,8 @@
    Small-step machine over the program points of client.py loop_forever (2260-2336), one step of
    the inner loop being one _loop() (1637-1707), with _reconnect_wait (4536-4556), reconnect
    (1546-1604: state := CONNECTING *before* _create_socket), _loop_rc_handle (3042-3059),
-   _handle_connack (3856-4025: delay reset, protocol downgrade with its nested reconnect()),
+   _handle_connack (delay reset on every accepting CONNACK, CONNECTED unless already DISCONNECTING,
+   protocol downgrade with its nested reconnect()),
    disconnect (1873-1892), the DISCONNECT branch of _packet_write (3229-3243).
    Driven by a script of per-attempt outcomes.  keepalive = 0 (C08 is separate), client id
    non-empty, no QoS>0 traffic.  Model only, no proofs.
@@ -195,7 +196,8 @@ Definition read_pending (cfg : config) (o : outcome) (s : bst) : lres :=
   | Refused | ClosedBeforeConnack => failed cfg 7 s
   | ConnackRefused r => refused_connack cfg (refusal_code r) s
   | Accepted t =>
-      let s1 := set_delay None (set_cs BConnected s) in
+      (* _handle_connack: CONNECTED unless disconnect() came first; the delay is reset in any case *)
+      let s1 := set_delay None (match b_cs s with BDisconnecting => s | _ => set_cs BConnected s end) in
       let (s2, e) := callback cfg PConnect 0 s1 in
       LRet 0 (set_sock (Up (b_now s + t) (msg_time cfg s t)) s2) (EvAccepted (b_now s) :: e)
   | Downgrade =>
